@@ -63,4 +63,150 @@ def gen(rng, tier, spec):
     return {'cfg': [locked, hascb, len(throws)] + throws, 'progs': progs, 'sched': sched}
 
 
-MONITORS = {}
+
+# ----------------------------------------------------------------------------- monitors (implementation trace only)
+
+def _scan(case, lines):
+    """replay the implementation trace; returns a dict of observations or a violation string under 'bad'"""
+    progs = case['progs']
+    cfg = case['cfg']
+    hascb = len(cfg) > 1 and cfg[1] != 0
+    nthrow = cfg[2] if len(cfg) > 2 else 0
+    # pre-scan: object id returned by every Add (thread, op index) -> oid
+    opidx = {}
+    add_oid = {}
+    for l in lines:
+        if len(l) != 5 or l[0] < 0:
+            continue
+        t, k, o, v, m = l
+        if k == K['INVOKE']:
+            opidx[t] = opidx.get(t, -1) + 1
+        elif k == K['RET'] and t in opidx:
+            op = progs[t][opidx[t]] if opidx[t] < len(progs[t]) else None
+            if op and op[0] == ADD:
+                add_oid[(t, opidx[t])] = v
+    obs = {'bad': [], 'dtor': {}, 'cb': {}, 'slots': {}, 'faults': 0, 'throws': 0}
+    owner = None
+    opidx = {}
+    cur = {}
+    slots = obs['slots']
+    for i, l in enumerate(lines):
+        if len(l) != 5 or l[0] < 0:
+            continue
+        t, k, o, v, m = l
+        if k == K['INVOKE']:
+            opidx[t] = opidx.get(t, -1) + 1
+            op = progs[t][opidx[t]] if opidx[t] < len(progs[t]) else [v]
+            cur[t] = op
+            if op[0] == ADD and op[1] != 0 and op[1] not in slots:
+                slots[op[1]] = add_oid.get((t, opidx[t]), -1)
+            elif op[0] == DROP and op[1] in slots:
+                del slots[op[1]]
+        elif k == K['LOCK'] or (k == K['TRYLOCK_FOR'] and v == 1):
+            if owner is not None:
+                obs['bad'].append('line %d: thread %d acquired destructionLock while thread %d owns it' % (i, t, owner))
+            owner = t
+        elif k == K['UNLOCK']:
+            owner = None
+        elif k == K['FAULT']:
+            obs['faults'] += 1
+        elif k == K['THROW']:
+            obs['throws'] += 1
+        elif k == K['CALL']:
+            oid, iscb = v // 2, v % 2 == 1
+            if owner == t:
+                obs['bad'].append('line %d: %s of object %d runs while its thread %d holds destructionLock'
+                                  % (i, 'callback' if iscb else 'destructor', oid, t))
+            if iscb:
+                obs['cb'][oid] = obs['cb'].get(oid, 0) + 1
+                if not hascb:
+                    obs['bad'].append('line %d: callback although none was given' % i)
+                if obs['cb'][oid] > 1:
+                    obs['bad'].append('line %d: callback of object %d called twice' % (i, oid))
+                if oid in obs['dtor']:
+                    obs['bad'].append('line %d: callback of object %d after its destructor' % (i, oid))
+            else:
+                obs['dtor'][oid] = obs['dtor'].get(oid, 0) + 1
+                if obs['dtor'][oid] > 1:
+                    obs['bad'].append('line %d: destructor of object %d runs twice' % (i, oid))
+                if oid in slots.values():
+                    obs['bad'].append('line %d: object %d destroyed while a client slot still owns it' % (i, oid))
+                top = cur.get(t, [0])[0]
+                if hascb and nthrow == 0 and top in (DESTROY, DESTROY_DELAY) and obs['cb'].get(oid, 0) != 1:
+                    obs['bad'].append('line %d: object %d reaped by destroyObjects with %d callback calls before its destructor'
+                                      % (i, oid, obs['cb'].get(oid, 0)))
+    return obs
+
+
+def _first(obs, words):
+    for b in obs['bad']:
+        if any(w in b for w in words):
+            return b
+    return None
+
+
+def mon_destroyed_twice(case, lines):
+    """an element destructor ran twice"""
+    return _first(_scan(case, lines), ['runs twice'])
+
+
+def mon_destroyed_while_owned(case, lines):
+    """an element destructor ran while a client slot still held the object"""
+    return _first(_scan(case, lines), ['still owns'])
+
+
+def mon_user_code_under_lock(case, lines):
+    """callback or destructor while the calling thread holds destructionLock; or two owners of the mutex"""
+    return _first(_scan(case, lines), ['holds destructionLock', 'acquired destructionLock'])
+
+
+def mon_callback(case, lines):
+    """callback count per reaped object != 1 (no-throw cases), callback twice, after the destructor, or without function"""
+    return _first(_scan(case, lines), ['callback'])
+
+
+def mon_ledger(case, lines):
+    """final ledger: destroyed <=> use_count 0; after DestroyContainer only client-owned objects survive"""
+    verdict = [l[1] for l in lines if len(l) >= 2 and l[0] == -1]
+    if not verdict or verdict[0] != 0:
+        return None
+    fin = [l for l in lines if l and l[0] == -2]
+    if not fin:
+        return None
+    obs = _scan(case, lines)
+    head = fin[0]
+    dead = len(head) > 3 and head[3] != 0
+    owned = set(obs['slots'].values())
+    for l in fin[1:]:
+        if len(l) < 5:
+            continue
+        _, oid, rc, d, cb = l[:5]
+        if d > 1:
+            return 'object %d destroyed %d times' % (oid, d)
+        if (rc == 0) != (d == 1):
+            return 'object %d: use_count %d but destructor calls %d (leak or premature destruction)' % (oid, rc, d)
+        if d != obs['dtor'].get(oid, 0):
+            return 'object %d: %d destructor calls in the ledger, %d in the trace' % (oid, d, obs['dtor'].get(oid, 0))
+        if dead and oid not in owned and d != 1:
+            return 'object %d has no client owner and the container is destroyed, but it was not destroyed' % oid
+        if oid in owned and d != 0:
+            return 'object %d is still owned by a client slot but was destroyed' % oid
+    return None
+
+
+def mon_progress(case, lines):
+    """deadlock / fuel / fault: none is possible for the generated programs"""
+    verdict = [l[1] for l in lines if len(l) >= 2 and l[0] == -1]
+    if verdict and verdict[0] == 1:
+        return 'deadlock: some thread is blocked for ever (self-deadlock on destructionLock?)'
+    if verdict and verdict[0] == 2:
+        return 'the run did not terminate within the fuel bound'
+    obs = _scan(case, lines)
+    if obs['faults'] and not any(op[0] == DESTROY_CONTAINER for p in case['progs'] for op in p):
+        return 'a fault was logged'
+    return None
+
+
+MONITORS = {'destroyed_twice': mon_destroyed_twice, 'destroyed_while_owned': mon_destroyed_while_owned,
+            'user_code_under_lock': mon_user_code_under_lock, 'callback': mon_callback, 'ledger': mon_ledger,
+            'progress': mon_progress}
